@@ -202,6 +202,18 @@ func genSim(r *simrt.Rand) SimCfg {
 		s.PreemptEvery = 40 + r.Intn(400)
 		s.PreemptNs = int64(200+r.Intn(30000)) * 1000
 	}
+	switch {
+	case r.Chance(0.12):
+		// every lock, file and clock operation takes a random amount of simulated
+		// time: all tasks advance at comparable speeds on the simulated clock
+		s.PreemptEvery, s.PreemptNs = 0, 0
+		s.JitterNs = int64(5+r.Intn(300)) * 1000
+	case r.Chance(0.15):
+		// tasks are held up repeatedly at a per-run subset of call sites
+		s.SlowMod = 4 + r.Intn(30)
+		s.SlowCoin = []int{2, 3, 4, 8}[r.Intn(4)]
+		s.SlowNs = int64(200+r.Intn(20000)) * 1000
+	}
 	return s
 }
 
